@@ -83,7 +83,7 @@ impl Scenario for C12 {
     fn meta(&self) -> Meta {
         Meta {
             level: "fault_enumeration",
-            rule: "history = producer chain over genesis period 3..6 (rebroadcasts, pruning at depth 2/4/8, purge at 2x genesis period), optionally a 2-block side fork, delivered block by block to a real full node (consensus path: mempool queue -> add_blocks_from_mempool -> block file + wallet file writes, purge removes); the simulated disk journals every operation. Crash images = every journal prefix k x tear class of operation k in {absent, created-empty, cut inside the header, half, all-but-last-byte, complete} (process dies, page cache survives: completed writes are durable). Twelve consecutive run indices enumerate the images of one history in chunks of 24. For each image a brand-new node runs the real start-up (Wallet::load, on_init with delete_old_blocks as drawn). Oracle: start-up does not panic; the restarted tip is a block the node had been given before the crash point; its in-window spendable set equals the reference ledger at that tip and the conservation equation holds; after a clean shutdown (full journal) the tip equals the pre-shutdown tip; the node then adopts the next three blocks of the chain. distinct_nontrivial = distinct (history, prefix, tear class) restarted.",
+            rule: "history = producer chain over genesis period 3..6 (rebroadcasts, pruning at depth 2/4/8, purge at 2x genesis period), optionally a 2-block side fork, delivered block by block to a real full node (consensus path: mempool queue -> add_blocks_from_mempool -> block file + wallet file writes, purge removes); the simulated disk journals every operation. Crash images = every journal prefix k x tear class of operation k in {absent, created-empty, cut inside the header, half, all-but-last-byte, complete} (process dies, page cache survives: completed writes are durable). Twelve consecutive run indices enumerate the images of one history in chunks of 24. For each image a brand-new node runs the real start-up (Wallet::load, on_init with delete_old_blocks as drawn). Oracle: start-up does not panic; the restarted tip is a block the node had been given before the crash point; its in-window spendable set equals the reference ledger at that tip and the conservation equation holds; after a clean shutdown (full journal) the tip equals the pre-shutdown tip; the node then adopts the next three blocks of the chain. The start-up's own storage operations are journalled as well: for every image one of them (seeded) is the point of a second crash with a seeded tear class, and a third start-up must again come up without panic on a known tip. After the recovery and the three further blocks a clean shutdown and another start-up must come up on exactly that extended tip. distinct_nontrivial = distinct (history, prefix, tear class) restarted.",
             real: &["ConsensusThread::on_init", "Storage::load_block_name_list/load_blocks_from_disk/write_block_to_disk/delete_block_from_disk", "Wallet::load/save", "Blockchain::add_blocks_from_mempool/add_block/delete_blocks/prune", "Block::deserialize_from_net/generate"],
             stubs: &["SimDisk journal + torn-write images (write_value = truncate+write, no fsync/rename, as RustIOHandler)", "SimConfig", "no network"],
             assumptions: &["crash model = process death (no lost un-synced writes); the power-loss model is not demanded by the property", "write errors are not injected (write_block_to_disk panics by design)"],
@@ -228,6 +228,11 @@ impl Scenario for C12 {
             }
             apply_torn(&mut d, &journal[*k], tear);
             let clean = *k + 1 == journal.len() && *tear == "complete";
+            // the start-up's own storage operations are journalled too: a second crash can hit them
+            d.record_journal = true;
+            d.journal.clear();
+            let image1_files = d.files.clone();
+            let image1_mseq = (d.mseq.clone(), d.seq);
             let disk = Arc::new(Mutex::new(d));
             // which delivery step was in progress when op k was issued
             let step = marks.iter().position(|(jl, _, _)| *jl > *k).unwrap_or(marks.len() - 1);
@@ -277,6 +282,57 @@ impl Scenario for C12 {
                 r.violate("C12|clean-restart|tip-differs", format!("after a clean shutdown the node restarts at id {} instead of {}", tip.0, final_tip.0));
                 continue;
             }
+            // second crash: the process dies again in the middle of the start-up's own storage operations
+            // (stale-file removal, wallet write, ...), then starts once more
+            {
+                let j2: Vec<JournalOp> = disk.lock().unwrap().journal.clone();
+                r.probe_n("startup_storage_ops", j2.len() as u64);
+                if std::env::var("VERIF_DEBUG").is_ok() {
+                    for (i, op) in j2.iter().enumerate() {
+                        match op {
+                            JournalOp::Write { path, data } => eprintln!("startup op {} write {} ({} bytes)", i, path, data.len()),
+                            JournalOp::Remove { path } => eprintln!("startup op {} remove {}", i, path),
+                        }
+                    }
+                }
+                if !j2.is_empty() {
+                    let mut pick = Digest::new();
+                    pick.u64(plan.seed).u64(*k as u64).str(tear);
+                    let h = pick.get();
+                    let k2 = (h % j2.len() as u64) as usize;
+                    let tear2 = if matches!(j2[k2], JournalOp::Remove { .. }) { if (h >> 20) % 2 == 0 { "absent" } else { "complete" } } else { TEARS[((h >> 20) % TEARS.len() as u64) as usize] };
+                    let mut d3 = DiskState::default();
+                    d3.files = image1_files.clone();
+                    d3.mseq = image1_mseq.0.clone();
+                    d3.seq = image1_mseq.1;
+                    for op in &j2[..k2] {
+                        d3.apply(op);
+                    }
+                    apply_torn(&mut d3, &j2[k2], tear2);
+                    let disk3 = Arc::new(Mutex::new(d3));
+                    let mut sim3 = Sim::new(1, start + 2000);
+                    let node3 = FullNode::new(0, &key, &cfg, disk3.clone(), sim3.clock.clone(), &opts);
+                    sim3.nodes.push(node3);
+                    sim3.init_node(0, false);
+                    r.fault("second_crash_during_startup", 1);
+                    if let Some((_, what, p)) = sim3.panics.first() {
+                        r.violate(
+                            format!("C12|panic|second-restart|{}|{}", what, p.site()),
+                            format!("crash at journal op {} ({}), then a second crash at start-up storage op {} ({}): the next start-up panicked in {}: {} ({}:{})", k, tear, k2, tear2, what, p.msg.chars().take(140).collect::<String>(), p.file, p.line),
+                        );
+                        continue;
+                    }
+                    let tip3 = sim3.nodes[0].tip();
+                    if tip3.0 == 0 && tip.0 != 0 {
+                        r.violate("C12|second-restart|chain-lost", format!("crash at journal op {} ({}) restarted at id {}; after a second crash at start-up storage op {} ({}) the node has no chain", k, tear, tip.0, k2, tear2));
+                        continue;
+                    }
+                    if tip3.0 != 0 && !allowed.contains(&tip3.1) {
+                        r.violate("C12|second-restart|tip-not-known-before-crash", format!("after the second crash the tip id {} was never given to the node", tip3.0));
+                        continue;
+                    }
+                }
+            }
             // ledger + supply at that tip (main chain tips only: the reference ledger of the side fork is not kept)
             if let Some((i, true)) = rec_of(&tip.1) {
                 let bc = block_on(sim2.nodes[0].blockchain_lock.read());
@@ -322,6 +378,26 @@ impl Scenario for C12 {
                     continue;
                 }
                 r.probe("restart_ok_and_extended");
+                // clean shutdown after the recovery, then one more start-up from the same disk: whatever the
+                // crash left behind (torn files) must not cost the blocks written since
+                {
+                    let mut sim4 = Sim::new(1, start + 3000);
+                    let node4 = FullNode::new(0, &key, &cfg, disk.clone(), sim4.clock.clone(), &opts);
+                    sim4.nodes.push(node4);
+                    sim4.init_node(0, false);
+                    if let Some((_, what, p)) = sim4.panics.first() {
+                        r.violate(format!("C12|panic|restart-after-recovery|{}|{}", what, p.site()), format!("crash at journal op {} ({}): recovered and extended, but the next clean start-up panicked: {} ({}:{})", k, tear, p.msg.chars().take(140).collect::<String>(), p.file, p.line));
+                        continue;
+                    }
+                    if sim4.nodes[0].tip().1 != want_tip {
+                        r.violate(
+                            if plan.delete_old_blocks { "C12|restart-after-recovery|tip-differs" } else { "C12|restart-after-recovery|tip-differs|stale-files-kept" },
+                            format!("crash at journal op {} ({}): recovered at id {} and extended to id {}, but after a clean shutdown the node restarts at id {}", k, tear, tip.0, c.recs[(i + 3).min(c.recs.len() - 1)].id, sim4.nodes[0].tip().0),
+                        );
+                        continue;
+                    }
+                    r.probe("clean_restart_after_recovery_ok");
+                }
             } else {
                 r.probe("restarted_on_side_fork");
             }
